@@ -2,7 +2,8 @@
 C20 — Searches over exported RDF return exactly the matching objects.
 
 Property theorems only; models: `Model/Query.lean`, `Model/Rdf.lean` (tied to /repo by
-`harness/c20.py`), helper lemmas: `Proofs/Query.lean`, `Proofs/Rdf.lean`.
+`harness/c20.py`), helper lemmas: `Proofs/Query.lean`, `Proofs/QueryFull.lean`, `Proofs/QueryRepo.lean`,
+`Proofs/Rdf.lean`.
 
 Reading guide
   * `prepareQuery q`   the basic graph pattern of the SPARQL text `QueryCreator` builds; a position
@@ -13,10 +14,16 @@ Reading guide
     `filtered g pats fs` the solutions that pass the FILTERs
   * `directEval ds q`  rows `(?d, ?s, ?p)` computed on the documents themselves: objects related
                        by direct containment that carry all requested attribute=value pairs
+  * `directEval' ds q` the same for all searchable attributes (`Proofs/QueryFull.lean`): an object
+                       also carries its `id`, a Property carries a `value` pair when every searched
+                       value is the text of one of its values, `repository` is an attribute like the
+                       others; equal to `directEval` on the queries of `QuerySafe`
   * `subsets pairs`    the combinations `FuzzyFinder` executes, in execution order
 -/
 import OdmlModel.Model.Query
 import OdmlModel.Proofs.Query
+import OdmlModel.Proofs.QueryFull
+import OdmlModel.Proofs.QueryRepo
 import OdmlModel.Props.C10
 
 set_option linter.unusedSimpArgs false
@@ -256,6 +263,150 @@ example : WFDocs [dS] ∧ RdfRepr [dS] ∧ NoRepo [dS] ∧ QuerySafe qS ∧
   ⟨wfDocs_of_B (by decide), rdfRepr_of_B (by decide),
    noRepo_of_B (by decide), querySafe_of_B (by decide), by decide⟩
 
+/-! ## 4b. Composition: `id`, `value` and `repository` pairs inside the main theorem
+
+`directEval'` is the direct specification for all searchable attributes (`objCarries`: for `id` the id
+of the object is the searched string; `propCarries`: for `value` every searched value is the text of
+one of the values of the Property; otherwise `carries`).  The three theorems have the shape of
+`query_sound_complete`; each widens the scope of the queries, the last one also the scope of the
+document sets (repositories allowed). -/
+
+/-- What the value and repository pairs need of the regenerated tables. -/
+theorem query_tables_ok2 : QTablesOK2 where
+  base := query_tables_ok
+  propValue := by decide
+  docRepo := by decide
+  secRepo := by decide
+  hvIri := by decide
+  htIri := by decide
+
+/-- The extended specification agrees with `directEval` on the queries of `query_sound_complete`. -/
+theorem direct_spec_extends (ds : List DocT) (q : QParams) (safe : QuerySafe q) :
+    directEval' ds q = directEval ds q :=
+  Query.directEval'_eq_of_safe ds q safe
+
+/-- **Sound and complete with `id` pairs** (step 1): as `query_sound_complete`, for queries that
+    also contain `id` pairs of any kind of object (Document / Section / Property), alone or together
+    with other pairs, of one kind or spanning kinds: a row is returned iff its objects are related by
+    direct containment, have the requested ids and carry all other requested values. -/
+theorem query_sound_complete_ids (ds : List DocT) (q : QParams) (wf : WFDocs ds) (r : RdfRepr ds)
+    (nr : NoRepo ds) (ids : QueryIds q) (row : Row) :
+    ∃ rows, queryRows (exportRdf ⟨false, []⟩ ds) q = .ok rows ∧
+      (row ∈ rows ↔ row ∈ directEval' ds q) :=
+  Query.sound_complete_norepo query_tables_ok2 ds q wf r nr
+    (queryFull_of_values (queryValues_of_ids ids)) row
+
+/-- **Sound and complete with `value` pairs** (step 2): as `query_sound_complete_ids`, for queries
+    that also contain `value` pairs: the Property of a returned row holds every searched value (as
+    the text of one of its values, whatever the datatype and the position), and every such Property
+    is returned.  `?v` (the value node) is bound by the query but is no part of the rows. -/
+theorem query_sound_complete_values (ds : List DocT) (q : QParams) (wf : WFDocs ds) (r : RdfRepr ds)
+    (nr : NoRepo ds) (vals : QueryValues q) (row : Row) :
+    ∃ rows, queryRows (exportRdf ⟨false, []⟩ ds) q = .ok rows ∧
+      (row ∈ rows ↔ row ∈ directEval' ds q) :=
+  Query.sound_complete_norepo query_tables_ok2 ds q wf r nr (queryFull_of_values vals) row
+
+def dV : DocT :=
+  ⟨"d1".toList, [("author", .str "me".toList), ("date", .date "2020-01-02".toList)], none,
+   [.mk "s1".toList [("name", .str "s".toList), ("type", .str "t".toList)]
+     [⟨"p1".toList, [("name", .str "p".toList), ("dtype", .str "int".toList),
+                     ("uncertainty", .float "0.5".toList)], [⟨"20".toList, xsdInteger⟩, ⟨"25".toList, xsdInteger⟩]⟩,
+      ⟨"p2".toList, [("name", .str "q".toList)], [⟨"x".toList, []⟩]⟩] [],
+    .mk "s2".toList [("name", .str "s2".toList), ("type", .str "t".toList)] [] []]⟩
+
+def dV2 : DocT := ⟨"d2".toList, [("author", .str "you".toList)], none, []⟩
+
+def qI : QParams :=
+  ⟨[⟨.doc, "id".toList, "d1".toList, []⟩, ⟨.doc, "author".toList, "me".toList, []⟩],
+   [⟨.sec, "id".toList, "s1".toList, []⟩],
+   [⟨.prop, "id".toList, "p2".toList, []⟩, ⟨.prop, "name".toList, "q".toList, []⟩]⟩
+
+def qV : QParams :=
+  ⟨[⟨.doc, "id".toList, "d1".toList, []⟩],
+   [⟨.sec, "name".toList, "s".toList, []⟩],
+   [⟨.prop, "value".toList, [], ["25".toList, "20".toList]⟩, ⟨.prop, "id".toList, "p1".toList, []⟩,
+    ⟨.prop, "dtype".toList, "int".toList, []⟩]⟩
+
+/-- The hypotheses are satisfiable: two Documents, queries spanning all three kinds with `id` pairs
+    (and a `value` pair with two searched values), each with a hit. -/
+example : WFDocs [dV, dV2] ∧ RdfRepr [dV, dV2] ∧ NoRepo [dV, dV2] ∧ QueryIds qI ∧ QueryValues qV ∧
+    (some (node "d1".toList), some (node "s1".toList), some (node "p2".toList)) ∈ directEval' [dV, dV2] qI ∧
+    (some (node "d1".toList), some (node "s1".toList), some (node "p1".toList)) ∈ directEval' [dV, dV2] qV :=
+  ⟨wfDocs_of_B (by decide), rdfRepr_of_B (by decide), noRepo_of_B (by decide), by decide, by decide,
+   by decide, by decide⟩
+
+/-- **Sound and complete, all searchable attributes, repositories included** (step 3): on the
+    export (no sub-classing) of every document set with unique ids and representable attributes whose
+    repositories are `RepoOK` (set to a non-empty value that is not one of the three odML class
+    IRIs; document sets without repositories are a special case, `repoOK_of_noRepo`), for every
+    query of `QueryFull` - every attribute name the query parsers accept for the kind of object
+    except the child lists: Document author / version / date / id / repository; Section name / type /
+    definition / reference / id / repository; Property name / definition / dtype / unit / reference /
+    value_origin / uncertainty / id / value - of one kind or spanning kinds: a row `(?d, ?s, ?p)` is
+    returned by the generated query (basic graph pattern and FILTERs) iff its objects are related by
+    direct containment and carry all requested values - none that lacks one, none missing. -/
+theorem query_sound_complete_full (ds : List DocT) (q : QParams) (wf : WFDocs ds) (r : RdfRepr ds)
+    (ro : RepoOK ds) (full : QueryFull q) (row : Row) :
+    ∃ rows, queryRows (exportRdf ⟨false, []⟩ ds) q = .ok rows ∧
+      (row ∈ rows ↔ row ∈ directEval' ds q) :=
+  Query.sound_complete_full query_tables_ok2 ds q wf r ro full row
+
+/-- **A match-mode search is exact for every executed combination**: for given pairs over searchable
+    attributes (each under the key of its kind) every combination the finder executes
+    (`combinations_exact`: every non-empty clash-free sub-list of the sorted pairs) returns exactly
+    the rows of the objects that carry all pairs of the combination. -/
+theorem match_search_sound_complete (ds : List DocT) (pairs : List Pair) (wf : WFDocs ds)
+    (r : RdfRepr ds) (ro : RepoOK ds) (hp : ∀ x ∈ pairs, fullPair x.kind x) (c : List Pair)
+    (hc : c ∈ subsets pairs) (row : Row) :
+    ∃ rows, queryRows (exportRdf ⟨false, []⟩ ds) (groupPairs c) = .ok rows ∧
+      (row ∈ rows ↔ row ∈ directEval' ds (groupPairs c)) := by
+  have hsub := ((combinations_exact pairs c).mp hc).2.1
+  have hmem : ∀ x ∈ c, fullPair x.kind x := fun x hx =>
+    hp x ((mem_mergeSort (le := pairLe)).mp (hsub.subset hx))
+  refine query_sound_complete_full ds (groupPairs c) wf r ro ⟨?_, ?_, ?_⟩ row <;>
+    (intro x hx
+     simp only [groupPairs, mem_filter, beq_iff_eq] at hx
+     have := hmem x hx.1
+     rw [hx.2] at this
+     exact this)
+
+/-- **What a match-mode search reports** (all searchable attributes, repositories included): the
+    search succeeds; the reported blocks are exactly the executed combinations
+    (`combinations_exact`, most specific first: `combinations_most_specific_first`) that have a hit on
+    the documents, in execution order; and the rows of each block are exactly the rows of the objects
+    that carry all pairs of its combination. -/
+theorem match_search_reports_exact (ds : List DocT) (pairs : List Pair) (wf : WFDocs ds)
+    (r : RdfRepr ds) (ro : RepoOK ds) (hp : ∀ x ∈ pairs, fullPair x.kind x) :
+    ∃ out, findRows (exportRdf ⟨false, []⟩ ds) pairs = .ok out ∧
+      out.map (·.1) =
+        ((subsets pairs).filter fun c => !(directEval' ds (groupPairs c)).isEmpty).map groupPairs ∧
+      ∀ blk ∈ out, ∀ row, row ∈ blk.2 ↔ row ∈ directEval' ds blk.1 :=
+  Query.findRows_go_exact _ ds (subsets pairs)
+    (fun c hc row => match_search_sound_complete ds pairs wf r ro hp c hc row)
+
+/-- … and a fuzzy search (`FIND attributes HAVING terms`) over searchable attributes reports exactly
+    that for the attribute = term pairs (`fuzzy_equals_match_on_pairs`). -/
+theorem fuzzy_search_reports_exact (ds : List DocT) (f : FParams) (wf : WFDocs ds)
+    (r : RdfRepr ds) (ro : RepoOK ds) (hd : ∀ a ∈ f.doc, String.ofList a ∈ fullAttrs .doc)
+    (hs : ∀ a ∈ f.sec, String.ofList a ∈ fullAttrs .sec)
+    (hpr : ∀ a ∈ f.prop, String.ofList a ∈ fullAttrs .prop) :
+    ∃ out, findRows (exportRdf ⟨false, []⟩ ds) (fuzzyPairs f) = .ok out ∧
+      out.map (·.1) =
+        ((subsets (fuzzyPairs f)).filter fun c => !(directEval' ds (groupPairs c)).isEmpty).map groupPairs ∧
+      ∀ blk ∈ out, ∀ row, row ∈ blk.2 ↔ row ∈ directEval' ds blk.1 := by
+  refine match_search_reports_exact ds (fuzzyPairs f) wf r ro ?_
+  intro x hx
+  simp only [fuzzyPairs, mem_append, mem_flatMap, mem_map] at hx
+  rcases hx with (⟨a, ha, v, _, rfl⟩ | ⟨a, ha, v, _, rfl⟩) | ⟨a, ha, v, _, rfl⟩
+  · exact ⟨rfl, hd a ha⟩
+  · exact ⟨rfl, hs a ha⟩
+  · exact ⟨rfl, hpr a ha⟩
+
+def qF : QParams :=
+  ⟨[⟨.doc, "repository".toList, "http://x.org/t.xml".toList, []⟩, ⟨.doc, "id".toList, "d1".toList, []⟩],
+   [⟨.sec, "repository".toList, "http://x.org/s.xml".toList, []⟩, ⟨.sec, "type".toList, "t".toList, []⟩],
+   [⟨.prop, "value".toList, [], ["20".toList]⟩, ⟨.prop, "uncertainty".toList, "0.5".toList, []⟩]⟩
+
 /-! ## 5. The other shapes of a query (repaired findings): typed literals, values, id, repository
 
 Until the `fix:` commits eb38590, 573e2b8, 57076b7 every one of these queries returned no row
@@ -277,6 +428,20 @@ def dW2 : DocT := ⟨"d2".toList, [("author", .str "you".toList)], none, []⟩
 
 example : WFDocs [dW, dW2] ∧ RdfRepr [dW, dW2] :=
   ⟨wfDocs_of_B (by decide), rdfRepr_of_B (by decide)⟩
+
+/-- The hypotheses of `query_sound_complete_full` are satisfiable: Documents and Sections with
+    repositories, a query spanning all three kinds with repository, id, value and typed-literal pairs
+    that has a hit; and the direct specification gives the rows the executed query gives
+    (`repository_query_matches`, `value_query_matches`; the candidate list names a row once per way
+    of reading `?d`, hence `eraseDups` - the theorems speak about membership). -/
+example : WFDocs [dW, dW2] ∧ RdfRepr [dW, dW2] ∧ RepoOK [dW, dW2] ∧ QueryFull qF ∧
+    (directEval' [dW, dW2] qF).eraseDups =
+      [(some (node "d1".toList), some (node "s1".toList), some (node "p1".toList))] ∧
+    (directEval' [dW, dW2] ⟨[], [⟨.sec, "repository".toList, "http://x.org/s.xml".toList, []⟩], []⟩).eraseDups
+      = [(some (node "d1".toList), some (node "s1".toList), none)] ∧
+    directEval' [dW, dW2] ⟨[], [], [⟨.prop, "value".toList, [], ["20".toList, "x".toList]⟩]⟩ = [] :=
+  ⟨wfDocs_of_B (by decide), rdfRepr_of_B (by decide), repoOK_of_B (by decide), queryFull_of_B (by decide),
+   by decide, by decide, by decide⟩
 
 /-- Typed literals match by their text: the Document that carries the date is found (and not the
     other one); a date nobody carries finds nothing. -/
